@@ -68,6 +68,7 @@ func (b BalSpec) Address() sdk.AccAddress {
 // VAccSpec is a genesis continuous vesting account (its balance comes from Balances).
 type VAccSpec struct {
 	Actor           string `json:"actor"`
+	Addr            string `json:"addr,omitempty"` // explicit bech32 address (no key) instead of an actor
 	OriginalVesting string `json:"original_vesting"`
 	Start           int64  `json:"start"`
 	End             int64  `json:"end"`
@@ -149,6 +150,20 @@ func BuildGenesis(spec *WorldSpec) (appState json.RawMessage, vals []ValInfo, er
 		addAcc(n)
 	}
 	for _, va := range spec.VestingAccounts {
+		if va.Addr != "" {
+			a, e := sdk.AccAddressFromBech32(va.Addr)
+			if e != nil {
+				return nil, nil, e
+			}
+			ba := authtypes.NewBaseAccount(a, nil, 0, 0)
+			bva := authvesting.NewBaseVestingAccount(ba, MustCoins(va.OriginalVesting), va.End)
+			if va.Delayed {
+				accs = append(accs, authvesting.NewDelayedVestingAccountRaw(bva))
+			} else {
+				accs = append(accs, authvesting.NewContinuousVestingAccountRaw(bva, va.Start))
+			}
+			continue
+		}
 		addAcc(va.Actor)
 	}
 	authGen := authtypes.NewGenesisState(authtypes.DefaultParams(), accs)
